@@ -447,25 +447,33 @@ def rule_twincall(ctx):
     f = ctx.program.func("beat.information_gain", R)
     s = ctx.S.get(f.qual)
     calls = [c for c in s.calls() if c.callee == "beat._get_entropy"]
-    need(len(calls) == 2, R, "information_gain: forward/backward entropy calls not found")
-    a, b = calls[0].term, calls[1].term
-    g_ent = ctx.program.func("beat._get_entropy", R)
+    main0 = [r for r in s.returns if not is_lit(r.term)]
+    if len(calls) == 2:
+        a, b = calls[0].term, calls[1].term
+        g_ent = ctx.program.func("beat._get_entropy", R)
 
-    def bound(c):
-        bd = {}
-        for i, x in enumerate(c.args):
-            if i < len(g_ent.params):
-                bd[g_ent.params[i]] = x
-        for n, v in c.kw:
-            bd[n] = v
-        return bd
+        def bound(c):
+            bd = {}
+            for i, x in enumerate(c.args):
+                if i < len(g_ent.params):
+                    bd[g_ent.params[i]] = x
+            for n, v in c.kw:
+                bd[n] = v
+            return bd
 
-    ba, bb = bound(calls[0]), bound(calls[1])
-    mirror = set(ba) == set(bb) and all(swap_roles(ba[k], f) is bb[k] for k in ba)
+        ba, bb = bound(calls[0]), bound(calls[1])
+        mirror = set(ba) == set(bb) and all(swap_roles(ba[k], f) is bb[k] for k in ba)
+    else:
+        # the entropy helper was evaluated in place (it changed its signature / was split): the two entropies are the
+        # terms compared to choose the larger one, and each must be the other with the roles exchanged
+        lt = common.lift_outer_ite(main0[0].term) if len(main0) == 1 else None
+        need(lt is not None and lt.op == "ite" and lt.a[0].op == "cmp" and lt.a[0].a[0] == "<", R, "information_gain: forward/backward entropy calls not found")
+        a, b = lt.a[0].a[1], lt.a[0].a[2]
+        mirror = common.shape_key(swap_roles(a, f)) == common.shape_key(b) and common.shape_key(swap_roles(b, f)) == common.shape_key(a)
     main = [r for r in s.returns if not is_lit(r.term)]
     sym = False
-    if mirror and len(main) == 1 and lift_ite(main[0].term).op == "ite":
-        c, x, y = lift_ite(main[0].term).a
+    if mirror and len(main) == 1 and common.lift_outer_ite(main[0].term).op == "ite":
+        c, x, y = common.lift_outer_ite(main[0].term).a
         # ite(fwd > bwd, F[fwd], F[bwd]): the same function of whichever entropy is larger
         if c.op == "cmp" and c.a[0] == "<" and {c.a[1], c.a[2]} == {a, b}:
             big = c.a[2]
